@@ -320,6 +320,36 @@ class _PfxRep:
         self._rep.assume(t)
 
 
+def not_found_from_errors(facts, rep, rule, D):
+    """R20.9: `FileNotFound` is the kind observers turn into "no" (`exists` -> Ok(false), remove_dir_all -> nothing to do): it is never
+    made out of another error.  A function or closure that *receives* an error (a `map_err` target, an error conversion) builds
+    FileNotFound only under a test of that error's own kind (io NotFound); re-issuing whatever went wrong as "not found" reports
+    the failure of a layer as absence"""
+    import re
+    n = 0
+    for b in facts.bodies:
+        if b.file.startswith("src/test_macros") or "::tests::" in b.id:
+            continue
+        err_args = [l for l in range(1, b.arg_count + 1)
+                    if re.search(r"error::VfsError(?!Kind)", b.local_ty(l)) or "std::io::Error" in b.local_ty(l) or "io::error::Error" in b.local_ty(l)]
+        if not err_args:
+            continue
+        for blk in b.blocks:
+            if blk.cleanup:
+                continue
+            for st in blk.stmts:
+                if st.kind == "assign" and st.rv.kind == "agg" and st.rv.agg.get("adt") == "error::VfsErrorKind" and \
+                        st.rv.agg.get("variant") == "FileNotFound":
+                    gs = D.guards(b, blk.idx)
+                    tested = any(any(x[0] == "arg" and x[1] + 1 in err_args for x in walk(g[1])) or
+                                 any(x[0] in ("errval",) for x in walk(g[1])) for g in gs)
+                    n += 1
+                    rep.ob(rule, D.owner_id(b), "FileNotFound built from an error only under a test of that error's kind", tested, "" if tested else
+                           "%s receives an error and answers FileNotFound whatever it was: an I/O failure of a layer reads as \"no such "
+                           "entry\" and the observers built on it answer Ok(false)" % b.id, st.line)
+    return n
+
+
 def tolerated_kind_sites(facts, rep, rule, D):
     """who may construct the kind create_dir_all swallows: `VfsErrorKind::DirectoryExists` is built only inside a backend's
     create_dir (where Tables M/U/O tie it to a positive directory test) — not in an error conversion, a wrapper or any
@@ -398,6 +428,7 @@ def run(facts, rep, tier, ctx):
                 rep.ob(tag + "R20.6", o["fn"], d, o["ok"], o["detail"], o["loc"])
     rep.floor("tolerated-kind construction sites", k, 6)
     k2 = tolerated_kind_sites(facts, rep, "R20.6", D)
+    not_found_from_errors(facts, rep, "R20.9", D)
     rep.floor("DirectoryExists construction sites (whole crate)", k2, 6)
     # R20.7 the async walk: a failed per-entry future is not kept in its slot (polling it again panics), an error item is
     # yielded once (typestate of poll_next, shared with C15 R15.4)
